@@ -139,7 +139,11 @@ type World struct {
 	ValKeys []sim.Key    // validator candidates (0.. = genesis validators)
 	UserScr []byte
 	UserAdr string
+	Aux     Cloner // monitor-owned history state, forked with the world
 }
+
+// Cloner is implemented by monitor state that travels along a history.
+type Cloner interface{ Clone() Cloner }
 
 const depositsPerBlock = 10
 
@@ -180,7 +184,11 @@ func (w *World) Fork() (*World, error) {
 	if err != nil {
 		return nil, err
 	}
-	return &World{N: n, Bot: w.Bot.clone(), Members: w.Members, ValKeys: w.ValKeys, UserScr: w.UserScr, UserAdr: w.UserAdr}, nil
+	f := &World{N: n, Bot: w.Bot.clone(), Members: w.Members, ValKeys: w.ValKeys, UserScr: w.UserScr, UserAdr: w.UserAdr}
+	if w.Aux != nil {
+		f.Aux = w.Aux.Clone()
+	}
+	return f, nil
 }
 
 // ---- state readers
@@ -477,6 +485,9 @@ type Result struct {
 	HeightBefore int64
 	Skipped      []string // events not enabled in this state
 	SimBlock     *sim.Block
+	AbandonedProposals  [][][]byte
+	AbandonedSysTxs     [][][]byte
+	AbandonChangedState bool
 	commitBot    func(fr *abci.ResponseFinalizeBlock)
 }
 
@@ -549,9 +560,21 @@ func (w *World) Run(b ABlock) *Result {
 		}
 		blk.MempoolTxs = res.RelayerTxs
 		for i := 0; i < b.Abandon; i++ {
-			if _, err := w.N.Prepare(blk); err != nil {
+			before := w.N.DumpStores(w.N.Ctx()).Hash()
+			w.N.EL.ResetCalls()
+			pp, err := w.N.Prepare(blk)
+			if err != nil {
 				res.BlockResult = &sim.BlockResult{Err: err, Stage: "abandoned-prepare"}
 				return res
+			}
+			res.AbandonedProposals = append(res.AbandonedProposals, pp.Txs)
+			for _, c := range w.N.EL.Calls() {
+				if c.Method == "forkchoiceUpdatedV3" && c.HasAttrs {
+					res.AbandonedSysTxs = append(res.AbandonedSysTxs, c.GoatTxs)
+				}
+			}
+			if w.N.DumpStores(w.N.Ctx()).Hash() != before {
+				res.AbandonChangedState = true
 			}
 		}
 	}
